@@ -501,6 +501,42 @@ func corrC03(outDir string, seed uint64, tier string, replay string) *report {
 			rep.bump("length_sweep_lengths")
 		}
 	}
+	// ---- passwords that differ in ONE bit, derived right after each other (a memo keyed by a lossy form of the password
+	// would serve the first one's result), each against libxcrypt ----
+	if xc != nil {
+		lr := newRng(seed ^ 0xb17)
+		for _, n := range []int{1, 5, 8, 9, 16, 17} {
+			base := []byte(lr.str(n, "abcXYZ019"))
+			for _, pos := range []int{0, n / 2, n - 1} {
+				for bit := 0; bit < 8; bit++ {
+					q := append([]byte(nil), base...)
+					q[pos] ^= 1 << uint(bit)
+					if q[pos] == 0 {
+						continue
+					}
+					for _, pwb := range [][]byte{base, q} {
+						pw := string(pwb)
+						a := map[string]interface{}{"password_hex": hx(pwb), "derived_right_after": hx(base)}
+						if len(pwb) <= 8 {
+							if k, err := des.Key(pwb, []byte("ab")); err == nil {
+								ref("des", a, pw, "ab"+crypthash.BigEndianEncoding.EncodeToString(k))
+							}
+						}
+						if k, err := desext.Key(pwb, []byte("salt"), 1); err == nil {
+							ref("desext", a, pw, "_/...salt"+crypthash.BigEndianEncoding.EncodeToString(k))
+						}
+						if k, err := md5.Key(pwb, []byte("saltsalt")); err == nil {
+							ref("md5", a, pw, "$1$saltsalt$"+crypthash.LittleEndianEncoding.EncodeToString(k))
+						}
+						if k, err := bcrypt.Key(pwb, []byte("abcdefghijklmnopqrstuu"), 4, nil); err == nil && pos == 0 {
+							ref("bcrypt", a, pw, "$2b$04$abcdefghijklmnopqrstuu"+bcrypt.Encoding.EncodeToString(k))
+						}
+					}
+					rep.bump("one_bit_neighbours")
+				}
+			}
+		}
+	}
 	// ---- costs across the digit-count boundaries (the decimal cost text is part of what SHA-1-crypt and Sun MD5 hash) ----
 	if xc != nil {
 		for _, rounds := range []uint32{1, 9, 10, 11, 99, 100, 999, 1000, 1001, 5903, 5904, 5905, 5906, 9999, 10000, 10001, 65535, 65536, 99999, 100000} {
